@@ -7,6 +7,7 @@ import (
 // C01 Exactly-once completion of every asynchronous operation.
 
 var c01pTwoActs = sim.RegStat("probe:c01-handler-did-two-things")
+var c01pStolen = sim.RegStat("probe:c01-handler-took-a-queued-connection-with-blocking-accept")
 
 var c01Kinds = []lKind{lkConnDial, lkConnAcc, lkAdapter, lkFifoR, lkFifoW, lkRegular, lkListener, lkPacket, lkPeer, lkConnUDP}
 
@@ -55,6 +56,8 @@ func (d *c01) startSomething(o *lObj, preferRead bool, beh int) bool {
 	return tryWrite() || tryRead()
 }
 
+var c01Acts = []int{1, 2, 3, 4, 5, 6, 7, 9}
+
 func (d *c01) behave(s *loop, op *lOp) { d.act(op, op.beh) }
 
 func (d *c01) act(op *lOp, beh int) {
@@ -64,14 +67,14 @@ func (d *c01) act(op *lOp, beh int) {
 	case 0:
 	case 8: // a handler that does two things (cancel and re-arm, close one object and start on another, ...)
 		w.Stat(c01pTwoActs)
-		d.act(op, 1+w.Choose(7))
-		d.act(op, 1+w.Choose(7))
+		d.act(op, c01Acts[w.Choose(len(c01Acts))])
+		d.act(op, c01Acts[w.Choose(len(c01Acts))])
 	case 1: // re-issue the same kind on the same object
 		if d.chain > 0 && !o.closed {
 			d.chain--
 			nb := 1
 			if w.Chance(1, 8) {
-				nb = w.Choose(9)
+				nb = w.Choose(10)
 			}
 			if op.kind.isRead() && d.canRead(o) {
 				d.startRead(o, op.kind == opReadAll, len(op.buf)+boolInt(op.kind == opAccept)*0+boolInt(len(op.buf) == 0 && op.kind != opAccept), nb)
@@ -99,6 +102,16 @@ func (d *c01) act(op *lOp, beh int) {
 		d.doClose(t)
 	case 7: // re-arm another object
 		d.startSomething(d.pickObj(), w.Chance(1, 2), w.Choose(4))
+	case 9: // take a queued connection with a listener's blocking Accept: a deferred AsyncAccept of the same batch then finds the queue empty
+		for _, t := range d.objs {
+			if t.kind == lkListener && !t.closed {
+				if conn, err := t.lis.Accept(); err == nil {
+					w.Stat(c01pStolen)
+					conn.Close()
+				}
+				break
+			}
+		}
 	}
 }
 
@@ -189,7 +202,7 @@ func runC01(c *Ctx, variant int) {
 	for i := 0; i < steps; i++ {
 		switch w.Choose(12) {
 		case 0, 1, 2, 3:
-			d.startSomething(d.pickObj(), w.Chance(2, 3), w.Choose(9))
+			d.startSomething(d.pickObj(), w.Chance(2, 3), w.Choose(10))
 		case 4, 5, 6:
 			d.peerAct(d.pickObj())
 		case 7, 8:
